@@ -43,6 +43,7 @@ type MQ struct {
 	logs      map[string][]*msgstream.MsgPack // vchannel -> pristine packs
 	regs      map[string]*reg
 	Registers []RegRecord
+	DupRegisters []string // vchannels for which a second Register arrived while the first was still live
 	Deregs    []string
 	// ParkRegister makes Register itself a scheduling point (registration races).
 	ParkRegister bool
@@ -217,6 +218,7 @@ func (m *MQ) Register(ctx context.Context, cfg *msgdispatcher.StreamConfig) (<-c
 	}
 	m.mu.Lock()
 	if _, dup := m.regs[v]; dup {
+		m.DupRegisters = append(m.DupRegisters, v) // (the caller may swallow the error: keep the attempt observable)
 		m.mu.Unlock()
 		return nil, fmt.Errorf("fakemq: vchannel %s registered twice", v)
 	}
